@@ -6,6 +6,7 @@ part I: the lines `ls` of a record denote the record `r`.  The document layer (r
 by blank lines, any line endings, leading/trailing blank lines) is the block structure of C08.
 -/
 import KlogV.Lemmas.Grammar
+import KlogV.Props.Tables
 namespace KlogV.C01
 
 abbrev HasLongDigitRun (l : List Char) : Prop := KlogV.HasLongDigitRun l
